@@ -45,6 +45,18 @@ impl<'a> Tape<'a> {
         let v = self.below(den);
         v >= den - num
     }
+    /// "one more item?" decision placed *before each item* (instead of a count up front), so that
+    /// deleting the tape bytes of one item yields a smaller, still aligned case. Forced/forbidden
+    /// decisions consume nothing.
+    pub fn more(&mut self, have: usize, min: usize, max: usize, num: usize, den: usize) -> bool {
+        if have < min {
+            true
+        } else if have >= max {
+            false
+        } else {
+            self.chance(num, den)
+        }
+    }
     pub fn flag(&mut self) -> bool {
         self.byte() >= 128
     }
